@@ -1,5 +1,6 @@
 import LibInj.Xss.IsXSS
 import LibInj.Proofs.XssLift
+import LibInj.Proofs.XssShift
 import LibInj.Proofs.SchemeEnc
 set_option linter.unusedSimpArgs false
 /-! # C04 — canonical XSS vectors are detected in every HTML injection context
@@ -165,6 +166,64 @@ theorem script_url_detected_in_element (p tag name ws ws2 junk enc rest sc : Byt
     isXSS (p ++ 60 :: (tag ++ w :: (ws ++ name ++ 61 :: (ws2 ++ q :: ((junk ++ enc) ++ q :: rest))))) = .ok true :=
   isXSS_of_ctx0 _ (url_attr_in_element p tag ws name ws2 (junk ++ enc) rest w q hq hp hn hw hws hws2 hu ha h2
     (scheme_enc_detected junk enc sc hj hsc henc))
+
+/-- **C04, `/` as separator**: an event handler right after `<tag/` -/
+theorem event_handler_detected_after_slash (e : Bytes × Nat) (he : e ∈ Gen.blackEvents) (p tag name ws ws2 rest : Bytes) (c : UInt8)
+    (hcase : CaseEq name (ON ++ e.1)) (hp : (60 : UInt8) ∉ p)
+    (hn : NameAt tag (47 :: (ws ++ name ++ 61 :: (ws2 ++ c :: rest))))
+    (hws : ws.all isSkipWhite = true) (hws2 : ws2.all isSkipWhite = true) (hc : isSkipWhite c = false) (ha : AttrAt name) :
+    isXSS (p ++ 60 :: (tag ++ 47 :: (ws ++ name ++ 61 :: (ws2 ++ c :: rest)))) = .ok true :=
+  isXSS_of_ctx0 _ (black_attr_in_element_slash p tag ws name ws2 rest c hp hn hws hws2 hc ha (Or.inl (listed_event_black e he name hcase)))
+
+/-- … a script URL in a quoted value right after `<tag/` -/
+theorem script_url_detected_after_slash (p tag name ws ws2 junk enc rest sc : Bytes) (q : UInt8)
+    (hq : q = 34 ∨ q = 39 ∨ q = 96) (hp : (60 : UInt8) ∉ p)
+    (hn : NameAt tag (47 :: (ws ++ name ++ 61 :: (ws2 ++ q :: ((junk ++ enc) ++ q :: rest)))))
+    (hws : ws.all isSkipWhite = true) (hws2 : ws2.all isSkipWhite = true) (hu : q ∉ junk ++ enc) (ha : AttrAt name)
+    (h2 : isBlackAttr name = 2) (hj : ∀ c ∈ junk, urlJunk c = true) (hsc : sc ∈ urls) (henc : Enc sc enc) :
+    isXSS (p ++ 60 :: (tag ++ 47 :: (ws ++ name ++ 61 :: (ws2 ++ q :: ((junk ++ enc) ++ q :: rest))))) = .ok true :=
+  isXSS_of_ctx0 _ (url_attr_in_element_slash p tag ws name ws2 (junk ++ enc) rest q hq hp hn hws hws2 hu ha h2
+    (scheme_enc_detected junk enc sc hj hsc henc))
+
+/-- **C04, any quoting of the value**: a script URL in an *unquoted* value (ended by white space, `>` or
+the end of the input), on any element in element content -/
+theorem script_url_detected_unquoted (p tag name ws ws2 junk enc rest sc : Bytes) (w : UInt8) (hp : (60 : UInt8) ∉ p)
+    (hn : NameAt tag (w :: (ws ++ name ++ 61 :: (ws2 ++ (junk ++ enc) ++ rest)))) (hw : isH5White w = true)
+    (hws : ws.all isSkipWhite = true) (hws2 : ws2.all isSkipWhite = true) (hv : ValAt (junk ++ enc) rest) (ha : AttrAt name)
+    (h2 : isBlackAttr name = 2) (hj : ∀ c ∈ junk, urlJunk c = true) (hsc : sc ∈ urls) (henc : Enc sc enc) :
+    isXSS (p ++ 60 :: (tag ++ w :: (ws ++ name ++ 61 :: (ws2 ++ (junk ++ enc) ++ rest)))) = .ok true :=
+  isXSS_of_ctx0 _ (url_attr_unquoted_in_element p tag ws name ws2 (junk ++ enc) rest w hp hn hw hws hws2 hv ha h2
+    (scheme_enc_detected junk enc sc hj hsc henc))
+
+/-- … and in the tag context -/
+theorem script_url_detected_unquoted_in_tag (name ws ws2 junk enc rest sc : Bytes)
+    (hws : ws.all isSkipWhite = true) (hws2 : ws2.all isSkipWhite = true) (hv : ValAt (junk ++ enc) rest) (ha : AttrAt name)
+    (h2 : isBlackAttr name = 2) (hj : ∀ c ∈ junk, urlJunk c = true) (hsc : sc ∈ urls) (henc : Enc sc enc) :
+    isXSS (ws ++ name ++ 61 :: (ws2 ++ (junk ++ enc) ++ rest)) = .ok true :=
+  isXSS_of_ctx _ 1 (by omega) (url_attr_unquoted_in_tag_context ws name ws2 (junk ++ enc) rest hws hws2 hv ha h2
+    (scheme_enc_detected junk enc sc hj hsc henc))
+
+/-- **C04 with C13, contexts compose**: whatever is detected in the tag context is detected in element
+content when it follows `<a ` after any `<`-free text -/
+theorem tag_context_lifts_to_content (v p : Bytes) (hp : (60 : UInt8) ∉ p) (h : isXSSCtx v 1 = .ok true) :
+    isXSS (p ++ ([60, 97, 32] ++ v)) = .ok true := by
+  apply isXSS_of_ctx0
+  rw [data_prefix _ p hp, embed_ctx1]
+  exact h
+
+/-- … and whatever is detected inside a `'`, `"` or back-tick value is detected when it follows `<a b=` + that quote -/
+theorem value_context_lifts_to_content (v p : Bytes) (c : Nat) (q : UInt8) (hp : (60 : UInt8) ∉ p)
+    (hc : c = 2 ∧ q = 39 ∨ c = 3 ∧ q = 34 ∨ c = 4 ∧ q = 96) (h : isXSSCtx v c = .ok true) :
+    isXSS (p ++ ([60, 97, 32, 98, 61, q] ++ v)) = .ok true := by
+  apply isXSS_of_ctx0
+  rw [data_prefix _ p hp]
+  rcases hc with ⟨rfl, rfl⟩ | ⟨rfl, rfl⟩ | ⟨rfl, rfl⟩
+  · rw [embed_quote 39 2 (Or.inl rfl) rfl]; exact h
+  · rw [embed_quote 34 3 (Or.inr (Or.inl rfl)) rfl]; exact h
+  · rw [embed_quote 96 4 (Or.inr (Or.inr rfl)) rfl]; exact h
+
+/-- non-vacuity of the unquoted form: `<a href=javascript:x>` -/
+example : isOkTrue (isXSS (bs "<a href=javascript:x>")) = true := by decide +kernel
 
 /-- non-vacuity: `href` is a URL-bearing attribute, `onerror` an event handler, `style` class 3 -/
 example : isBlackAttr [104, 114, 101, 102] = 2 ∧ isBlackAttr [111, 110, 101, 114, 114, 111, 114] = 1 ∧
